@@ -151,6 +151,11 @@ func emitTPSPos(c *Ctx, p *tak.Position, src string) {
 	c.Count("src." + src)
 	classifyPos(c, p)
 	tok := encPos(p)
+	if c.R.Chance(1, 6) {
+		// a caller that reads the board through At and writes into what it got back, before the formatter reads it
+		c.Emit("acc " + tok)
+		c.Count("acc-before-tps")
+	}
 	out := c.Emit("tps " + tok)
 	if out != "panic" {
 		c.Emit("parsetps " + out)
